@@ -117,18 +117,51 @@ Proof. intros. rewrite nth_error_app2, Nat.sub_diag by lia. reflexivity. Qed.
 Lemma upd_same : forall {T} (f : nat -> T) k v, upd f k v k = v.
 Proof. intros. unfold upd. rewrite Nat.eqb_refl. reflexivity. Qed.
 
+(* setting fields that the counters do not depend on *)
+Lemma eff_set_heap : forall (st : gst) h f, eff (set_heap st h) f = eff st f.
+Proof. reflexivity. Qed.
+Lemma eff_set_pctx : forall (st : gst) p f, eff (set_pctx st p) f = eff st f.
+Proof. reflexivity. Qed.
+
+Lemma eff_bump : forall (st : gst) f n, eff (bump st f n) f = eff st f + n.
+Proof.
+  intros st f n. unfold bump, eff. destruct (xml_fmt f) eqn:E.
+  - destruct n; simpl; [destruct (g_xjunkid st); lia | reflexivity].
+  - simpl. reflexivity.
+Qed.
+
+Lemma bump_heap : forall (st : gst) f n, g_heap (bump st f n) = g_heap st.
+Proof. intros. unfold bump. destruct (xml_fmt f); [destruct n|]; reflexivity. Qed.
+Lemma bump_pctx : forall (st : gst) f n, g_pctx (bump st f n) = g_pctx st.
+Proof. intros. unfold bump. destruct (xml_fmt f); [destruct n|]; reflexivity. Qed.
+Lemma bump_rest : forall (st : gst) f n,
+  g_cfgver (bump st f n) = g_cfgver st /\ g_fcache (bump st f n) = g_fcache st /\
+  g_recache (bump st f n) = g_recache st /\ g_mcache (bump st f n) = g_mcache st /\
+  g_dtdtext (bump st f n) = g_dtdtext st.
+Proof. intros. unfold bump. destruct (xml_fmt f); [destruct n|]; simpl; auto. Qed.
+
+(* one read + parse: a new context at the end of the heap, the parser points to
+   it, the entries carry ids from the parser's counter, which advances by the
+   number of Junk constructions; nothing else changes *)
 Lemma parse1_eq : forall (st : gst) f t,
-  parse1M st f t =
-  (let r := walk_fn f t false in
-   G (g_heap st ++ [Ctx t (snd r)])
-     (upd (g_pctx st) f (Some (length (g_heap st))))
-     (g_junkid st + ncons (fst r)) (g_dtdtext st) (g_cfgver st) (g_fcache st)
-     (g_recache st) (g_mcache st),
-   ents_of (g_junkid st) (length (g_heap st)) t (fst (walk_fn f t false))).
+  let r := walk_fn f t false in
+  let st' := fst (parse1M st f t) in
+  g_heap st' = g_heap st ++ [Ctx t (snd r)] /\
+  g_pctx st' = upd (g_pctx st) f (Some (length (g_heap st))) /\
+  eff st' f = eff st f + ncons (fst r) /\
+  snd (parse1M st f t) = ents_of (eff st f) (length (g_heap st)) t (fst r) /\
+  (g_cfgver st' = g_cfgver st /\ g_fcache st' = g_fcache st /\
+   g_recache st' = g_recache st /\ g_mcache st' = g_mcache st /\ g_dtdtext st' = g_dtdtext st).
 Proof.
   intros st f t. unfold parse1, walk, read_unicode. simpl.
   rewrite upd_same, nth_error_app_last. simpl.
-  unfold set_junkid, set_heap. simpl. rewrite replace_nth_last. reflexivity.
+  rewrite replace_nth_last.
+  match goal with |- context [bump ?s ?g ?k] =>
+    destruct (bump_rest s g k) as (A & B & C & D & T);
+    pose proof (bump_heap s g k) as Hh; pose proof (bump_pctx s g k) as Hp;
+    pose proof (eff_bump s g k) as He
+  end.
+  rewrite Hh, Hp, He, A, B, C, D, T. repeat split.
 Qed.
 
 (* contents of existing contexts never change; contexts are never freed *)
@@ -170,12 +203,12 @@ Lemma walk_heap_ext : forall (st : gst) f, heap_ext (g_heap st) (g_heap (fst (wa
 Proof.
   intros st f. unfold walk. destruct (g_pctx st f) as [c|]; [|apply heap_ext_refl].
   destruct (nth_error (g_heap st) c) as [cx|] eqn:E; [|apply heap_ext_refl].
-  simpl. apply heap_ext_replace; auto.
+  simpl. rewrite bump_heap. simpl. apply heap_ext_replace; auto.
 Qed.
 
 Lemma parse1_heap : forall (st : gst) f t,
   g_heap (fst (parse1M st f t)) = g_heap st ++ [Ctx t (snd (walk_fn f t false))].
-Proof. intros. rewrite parse1_eq. reflexivity. Qed.
+Proof. intros. apply parse1_eq. Qed.
 
 Lemma parse_many_heap : forall ts (st : gst) f,
   exists m, g_heap (fst (parse_manyM st f ts)) = g_heap st ++ m.
@@ -235,6 +268,7 @@ Proof.
   simpl. intros H. apply ents_of_ctx in H. unfold ent_valid.
   destruct H as [-> | ->]; auto.
   exists (Ctx (c_contents cx) (snd (walk_fn f (c_contents cx) (c_flag cx)))).
+  rewrite bump_heap. simpl.
   apply nth_error_replace_same. apply nth_error_Some. congruence.
 Qed.
 
@@ -279,7 +313,10 @@ Lemma parse1_independent : forall (st st' : gst) f t,
   out_equiv V (g_heap (fst (parse1M st f t))) (OEnts (snd (parse1M st f t)))
             (g_heap (fst (parse1M st' f t))) (OEnts (snd (parse1M st' f t))).
 Proof.
-  intros st st' f t. rewrite !parse1_eq. simpl.
+  intros st st' f t.
+  destruct (parse1_eq st f t) as (H1 & _ & _ & E1 & _).
+  destruct (parse1_eq st' f t) as (H2 & _ & _ & E2 & _).
+  simpl. rewrite H1, H2, E1, E2.
   eapply obs_ents_of; try apply nth_error_app_last; reflexivity.
 Qed.
 
@@ -296,24 +333,24 @@ Proof.
 Qed.
 
 Lemma parse_many_junkid : forall ts (st : gst) f,
-  g_junkid (fst (parse_manyM st f ts)) =
-  g_junkid st + fold_right (fun t n => ncons (fst (walk_fn f t false)) + n) 0 ts.
+  eff (fst (parse_manyM st f ts)) f =
+  eff st f + fold_right (fun t n => ncons (fst (walk_fn f t false)) + n) 0 ts.
 Proof.
   induction ts as [|t r IH]; intros st f; simpl; [lia|].
-  rewrite IH, parse1_eq. simpl. lia.
+  rewrite IH. destruct (parse1_eq st f t) as (_ & _ & E & _). rewrite E. lia.
 Qed.
 
 Lemma parse_many_resolve : forall ts (st : gst) f,
   map (map (resolve (g_heap (fst (parse_manyM st f ts))))) (snd (parse_manyM st f ts)) =
-  kents_many walk_fn (g_junkid st) f ts.
+  kents_many walk_fn (eff st f) f ts.
 Proof.
   induction ts as [|t r IH]; intros st f; [reflexivity|].
-  simpl. f_equal.
+  simpl. destruct (parse1_eq st f t) as (H1 & _ & E & E1 & _). f_equal.
   - destruct (parse_many_heap r (fst (parse1M st f t)) f) as (m & Hm).
-    rewrite Hm, parse1_eq. simpl.
+    rewrite Hm, H1, E1.
     eapply resolve_ents_of with (cx := Ctx t (snd (walk_fn f t false))); [|reflexivity].
     rewrite <- app_assoc. simpl. rewrite nth_error_app2, Nat.sub_diag by lia. reflexivity.
-  - rewrite IH. rewrite parse1_eq. reflexivity.
+  - rewrite IH, E. reflexivity.
 Qed.
 
 (* junk ids *)
@@ -492,7 +529,8 @@ Lemma parse_many_caches : forall ts (st : gst) f,
 Proof.
   induction ts as [|t r IH]; intros st f; simpl; [auto|].
   destruct (IH (fst (parse1M st f t)) f) as (A & B & C & D).
-  rewrite A, B, C, D, parse1_eq. simpl. auto.
+  destruct (parse1_eq st f t) as (_ & _ & _ & _ & A' & B' & C' & D' & _).
+  rewrite A, B, C, D. auto.
 Qed.
 
 Lemma walk_caches : forall (st : gst) f,
@@ -502,13 +540,16 @@ Lemma walk_caches : forall (st : gst) f,
 Proof.
   intros st f. unfold walk. destruct (g_pctx st f); simpl; auto.
   destruct (nth_error (g_heap st) n); simpl; auto.
+  match goal with |- context [bump ?s ?f ?k] => destruct (bump_rest s f k) as (A & B & C & D & _) end.
+  rewrite A, B, C, D. auto.
 Qed.
 
 Lemma step_caches_ok : forall (st : gst) o,
   is_reconfig o = false -> caches_ok st -> caches_ok (fst (stepM st o)).
 Proof.
   intros st o Hr (Hf & Hx & Hm). destruct o; simpl in *; try discriminate.
-  - rewrite parse1_eq. simpl. repeat split; auto.
+  - destruct (parse1_eq st f t) as (_ & _ & _ & _ & A & B & C & D & _). unfold caches_ok.
+    rewrite A, B, C, D. auto.
   - destruct (walk_caches st f) as (A & B & C & D). unfold caches_ok.
     rewrite A, B, C, D. auto.
   - destruct (parse_many_caches (vop_texts o) st (vop_fmt o)) as (A & B & C & D).
@@ -541,7 +582,7 @@ Lemma step_cfgver : forall (st : gst) o,
   is_reconfig o = false -> g_cfgver (fst (stepM st o)) = g_cfgver st.
 Proof.
   intros st o Hr. destruct o; simpl in *; try discriminate.
-  - rewrite parse1_eq. reflexivity.
+  - apply parse1_eq.
   - apply walk_caches.
   - destruct (parse_many_caches (vop_texts o) st (vop_fmt o)) as (A & _).
     destruct (dtd_fn o); simpl; auto.
